@@ -29,7 +29,8 @@ class _Normalise(ast.NodeTransformer):
             out.append(st)
         if not out:
             p = ast.Pass()
-            ast.copy_location(p, body[0]) if body else None
+            if body:
+                ast.copy_location(p, body[0])
             out = [p]
         return out
 
@@ -38,7 +39,11 @@ class _Normalise(ast.NodeTransformer):
         for fld in ("body", "orelse", "finalbody"):
             b = getattr(node, fld, None)
             if isinstance(b, list) and b and isinstance(b[0], ast.stmt):
-                setattr(node, fld, self._body(b))
+                nb = self._body(b)
+                # `else: pass` left behind by removed log lines is dropped
+                if fld == "orelse" and all(isinstance(x, ast.Pass) for x in nb):
+                    nb = []
+                setattr(node, fld, nb)
         return node
 
     def visit_FunctionDef(self, node):
@@ -86,12 +91,7 @@ class _Normalise(ast.NodeTransformer):
 
 
 def _normalise(tree: ast.Module) -> ast.Module:
-    t = _Normalise().visit(tree)
-    # `else: pass` left behind by removed log lines is dropped
-    for n in ast.walk(t):
-        if isinstance(n, (ast.If, ast.For, ast.While, ast.Try)) and getattr(n, "orelse", None) and all(isinstance(x, ast.Pass) for x in n.orelse):
-            n.orelse = []
-    return ast.fix_missing_locations(t)
+    return _Normalise().visit(tree)
 
 
 class ModuleInfo:
